@@ -1644,9 +1644,8 @@ ASSUMPTIONS = [
     "objects on the Frozen list (IMAGE_DEF / UNDERLAY_DEFINITION resources, soft-pointer dictionary entries, SPATIAL_FILTER matrices, the source entity behind disassemble.Primitive.entity) are shared on purpose",
 ]
 OPEN = [
-    "graphs_separated is proved as graphs_separated_partial: the rule (TransformByBlockReference, *, _temporary_transformation) is tolerated (finding C16-1, Body.copy_data aliases the object)",
-    "candidates_frozen is proved as candidates_frozen_partial: (Tags, VisualStyle, acad_xdata) between documents made by new(setup=True) is tolerated (finding C16-4)",
-    "copy_equal holds modulo the recipe: VBAProject.data and SortEntsTable.table are lost by copy() on the real code (findings C16-2, C16-3), reported by the oracle",
+    "which copy_data recipe a class uses is tied to the code by T-ast + correspondence X2 and by the extracted graphs, not by a proof; classes outside the modelled subset (Dimension family, ACIS entities, BLOCK_RECORD) are covered by graphs and oracle only",
+    "frame_needs_separation is a regression fact about the pre-fix configuration (Body.copy_data aliasing, fixed by 3a74eae26), not about the current code",
 ]
 
 
@@ -2584,11 +2583,6 @@ def _corr_worker(args):
                 continue
             g0 = Graph()
             frozen_nodes = frozen_region(g0, g0.add(e), g0.add(c))
-            # known defect C16-1: the aliased transformation object is treated as frozen (not written) so that the
-            # stream compares the semantics of the model, not the defect
-            for n in g0.nodes:
-                if n["type"] == "TransformByBlockReference":
-                    frozen_nodes.add(g0.index[id(n["obj"])])
             # objects whose raw writes the Python side cannot mirror slot by slot (sets, arrays, mixed
             # __dict__/__slots__ instances, dicts with object keys) are not written by either side
             for i in g0.reach(g0.index[id(e)]) | g0.reach(g0.index[id(c)]):
@@ -2730,7 +2724,7 @@ def replay(ctx, rep):
 # ----------------------------------------------------------------------------- copy recipes from the source text (T-ast)
 HEADER = ["doc", "dxf", "extension_dict", "reactors", "proxy_graphic", "appdata", "xdata", "_source_of_copy"]
 DYNAMIC = {"_uuid", "_source_block_reference"}
-POLICY_LETTER = {"deep": "d", "alias": "a", "shallow": "s", "reset": "r", "init": "i", "ents": "e"}
+POLICY_LETTER = {"deep": "d", "alias": "a", "shallow": "s", "reset": "r", "init": "i", "ents": "e", "fresh": "i"}
 
 
 def _is_self_attr(node, who="self"):
@@ -2745,6 +2739,8 @@ def classify_rhs(v):
         return "alias"
     if _is_self_attr(v, "entity"):
         return "init"  # `entity.x = entity.x`: the clone keeps what __init__ gave it
+    if isinstance(v, ast.Call) and isinstance(v.func, ast.Name) and not v.args and not v.keywords and v.func.id[:1].isupper():
+        return "fresh"  # `entity.x = SomeClass()`: a new default object
     if isinstance(v, ast.Call):
         f = v.func
         arg = v.args[0] if len(v.args) == 1 and not v.keywords else None
@@ -2795,6 +2791,10 @@ def parse_copy_data(fn):
                 if txt.startswith("entity.dxf.discard(") and c.args and isinstance(c.args[0], ast.Constant):
                     nsdrop.append(c.args[0].value)
                     continue
+                # `entity.<part>.<method>(x.copy())`: filling a part of the clone with copies
+                if (isinstance(c.func, ast.Attribute) and _is_self_attr(c.func.value, "entity") and c.args
+                        and all(isinstance(a, ast.Call) and isinstance(a.func, ast.Attribute) and a.func.attr == "copy" and not a.args for a in c.args)):
+                    continue
                 opaque = opaque or f"statement {txt[:40]}"
                 continue
             if isinstance(st, ast.If) and not st.orelse:
@@ -2802,6 +2802,8 @@ def parse_copy_data(fn):
                 continue
             if isinstance(st, ast.Assign) and len(st.targets) == 1:
                 t = st.targets[0]
+                if isinstance(t, ast.Name) and t.id not in ("entity", "self"):
+                    continue  # local variable
                 if _is_self_attr(t, "entity"):
                     p = classify_rhs(st.value)
                     if p is None:
